@@ -644,3 +644,617 @@ theorem parseBuffered_no_panic (i : Inner) (data : Bytes) (e : Bool) (hne : i.bu
   split
   · intro h; cases h
   · split <;> (intro h; cases h)
+
+/-! ## 8. `parse_stream` computed exactly -/
+
+theorem envExtend_nil (env : List (Bytes × Bytes)) : envExtend env [] = env := rfl
+
+theorem envExtend_cons (env : List (Bytes × Bytes)) (p : Bytes × Bytes) (ps : List (Bytes × Bytes)) :
+    envExtend env (p :: ps) = envExtend (envInsert env (makeCgivar p.1) p.2) ps := rfl
+
+theorem envExtend_append (env : List (Bytes × Bytes)) (xs ys : List (Bytes × Bytes)) :
+    envExtend env (xs ++ ys) = envExtend (envExtend env xs) ys := by
+  simp [envExtend, List.foldl_append]
+
+/-- The `NVIter` part of `parse_stream` (the closure `cont` of the model, verbatim). -/
+def psCont (len : Nat) (recEnd : Bool) (i : Inner) (data : Bytes) : PS :=
+  let (pairs, rest) := NV.all data
+  let i' := { i with req := { i.req with env := envExtend i.req.env pairs } }
+  if recEnd && !rest.isEmpty then .ok { i' with buffer := i'.buffer ++ rest } len
+  else .ok i' (len - rest.length)
+
+theorem parseStream_unfold (i : Inner) (data : Bytes) (e : Bool) :
+    parseStream i data e =
+      if !i.buffer.isEmpty then
+        match parseBuffered i data e with
+        | .panic s => .panic s
+        | .ok i1 d1 =>
+          if !i1.buffer.isEmpty then .ok i1 (data.length - d1.length)
+          else psCont data.length e i1 d1
+      else psCont data.length e i data := by
+  unfold parseStream; rfl
+
+theorem psCont_eq (len : Nat) (e : Bool) (i : Inner) (d : Bytes) :
+    psCont len e i d =
+      if e then .ok { req := { i.req with env := envExtend i.req.env (NV.all d).1 },
+                      buffer := i.buffer ++ (NV.all d).2 } len
+      else .ok { req := { i.req with env := envExtend i.req.env (NV.all d).1 },
+                 buffer := i.buffer } (len - (NV.all d).2.length) := by
+  unfold psCont
+  cases e with
+  | false => simp
+  | true =>
+    cases hr : (NV.all d).2 with
+    | nil => simp [hr]
+    | cons a t => simp [hr]
+
+/-- Cursor position after a `parse_stream` call that could not complete a pair and is not at a
+record end: nothing moves if the buffer was empty (the data is simply left unconsumed), otherwise
+the knowable part of the header is moved. -/
+def stall (n : Nat) (W : Bytes) : Nat := if n = 0 then 0 else max n (headNeed W)
+
+/-- What `parse_stream` does, as a function of `W = buffer ++ data`. -/
+def psSpec (i : Inner) (data : Bytes) (e : Bool) : PS :=
+  if e then
+    .ok { req := { i.req with env := envExtend i.req.env (NV.all (i.buffer ++ data)).1 },
+          buffer := (NV.all (i.buffer ++ data)).2 } data.length
+  else if NV.next (i.buffer ++ data) = none then
+    .ok { i with buffer := (i.buffer ++ data).take (stall i.buffer.length (i.buffer ++ data)) }
+        (stall i.buffer.length (i.buffer ++ data) - i.buffer.length)
+  else
+    .ok { req := { i.req with env := envExtend i.req.env (NV.all (i.buffer ++ data)).1 },
+          buffer := [] } (data.length - (NV.all (i.buffer ++ data)).2.length)
+
+/-- **`parse_stream`, exactly**, whenever the side buffer is not a complete pair. -/
+theorem parseStream_eq (i : Inner) (data : Bytes) (e : Bool) (hnone : NV.next i.buffer = none) :
+    parseStream i data e = psSpec i data e := by
+  rw [parseStream_unfold]
+  by_cases hb : i.buffer = []
+  · obtain ⟨req, buffer⟩ := i
+    simp only at hb; subst hb
+    simp only [List.isEmpty_nil, Bool.not_true, Bool.false_eq_true, if_false, psCont_eq, psSpec,
+      List.nil_append, List.length_nil, stall, if_true, List.take_zero, Nat.sub_self]
+    cases e with
+    | true => rfl
+    | false =>
+      simp only [Bool.false_eq_true, if_false]
+      by_cases hx : NV.next data = none
+      · rw [if_pos hx, C16.all_none hx]; simp [envExtend_nil]
+      · rw [if_neg hx]
+  · have hbe : i.buffer.isEmpty = false := by
+      cases hbb : i.buffer with
+      | nil => exact absurd hbb hb
+      | cons a t => rfl
+    have hpos : 0 < i.buffer.length := List.length_pos_iff.mpr hb
+    simp only [hbe, Bool.not_false, if_true, parseBuffered_eq i data e hb hnone, pbSpec]
+    rcases Option.eq_none_or_eq_some (NV.next (i.buffer ++ data)) with hx | ⟨⟨p, r⟩, hx⟩
+    · simp only [hx, psSpec, if_true, C16.all_none hx, envExtend_nil]
+      cases e with
+      | true =>
+        have hne : (i.buffer ++ data).isEmpty = false := by
+          cases hbb : i.buffer with
+          | nil => exact absurd hbb hb
+          | cons a t => rfl
+        simp [hne]
+      | false =>
+        simp only [Bool.false_eq_true, if_false, stall, Nat.ne_of_gt hpos]
+        generalize ht : max i.buffer.length (headNeed (i.buffer ++ data)) = t
+        have hle := headNeed_le (i.buffer ++ data)
+        simp only [List.length_append] at hle
+        have hne : ((i.buffer ++ data).take t).isEmpty = false := by
+          have : 0 < ((i.buffer ++ data).take t).length := by
+            simp only [List.length_take, List.length_append]; omega
+          cases hbb : (i.buffer ++ data).take t with
+          | nil => rw [hbb] at this; simp at this
+          | cons a t => rfl
+        simp only [hne, Bool.not_false, if_true, List.length_drop, List.length_append]
+        congr 1; omega
+    · simp only [hx, psSpec, if_false, C16.all_some hx, envExtend_cons, List.isEmpty_nil,
+        Bool.not_true, Bool.false_eq_true, psCont_eq, List.nil_append, reduceCtorEq]
+
+/-! ## 9. More on `NV.all` -/
+
+theorem all_nil : NV.all [] = ([], []) := C16.all_none (by decide)
+
+theorem all_rest_length_le (W : Bytes) : (NV.all W).2.length ≤ W.length := by
+  obtain ⟨c, hc⟩ := C16.rest_suffix W
+  have := congrArg List.length hc
+  simp only [List.length_append] at this; omega
+
+theorem all_rest_eq_drop (W : Bytes) : (NV.all W).2 = W.drop (W.length - (NV.all W).2.length) := by
+  obtain ⟨c, hc⟩ := C16.rest_suffix W
+  generalize (NV.all W).2 = t at hc ⊢
+  subst hc
+  rw [List.drop_left' (by simp)]
+
+/-- The consumed part of the input (everything but the undecoded rest) decodes to the same pairs
+and leaves nothing. -/
+theorem all_take_consumed (W : Bytes) :
+    NV.all (W.take (W.length - (NV.all W).2.length)) = ((NV.all W).1, []) := by
+  induction W using C16.all_ind with
+  | hnone W h => rw [C16.all_none h]; simp [all_nil]
+  | hsome W p r h ih =>
+    obtain ⟨pre, rfl, hp⟩ := next_pre h
+    rw [C16.all_some h]
+    have hle := all_rest_length_le r
+    simp only at ih ⊢
+    have e1 : (pre ++ r).take ((pre ++ r).length - (NV.all r).2.length)
+        = pre ++ r.take (r.length - (NV.all r).2.length) := by
+      rw [List.take_append, List.take_of_length_le (by simp only [List.length_append]; omega)]
+      congr 2; simp only [List.length_append]; omega
+    rw [e1]
+    have := C16.next_append (r.take (r.length - (NV.all r).2.length)) hp
+    rw [List.nil_append] at this
+    rw [C16.all_some this, ih]
+
+/-- When the side buffer is incomplete but `buffer ++ data` yields a pair, the undecoded rest lies
+within the data. -/
+theorem all_rest_within {B D : Bytes} (hB : NV.next B = none) (h : NV.next (B ++ D) ≠ none) :
+    (NV.all (B ++ D)).2.length ≤ D.length := by
+  rcases Option.eq_none_or_eq_some (NV.next (B ++ D)) with hx | ⟨⟨p, r⟩, hx⟩
+  · exact absurd hx h
+  · obtain ⟨k, _, kl, rfl, _⟩ := next_completes hB hx
+    rw [C16.all_some hx]
+    have := all_rest_length_le (D.drop k)
+    simp only [List.length_drop] at this ⊢
+    omega
+
+theorem stall_bounds (B D : Bytes) :
+    B.length ≤ stall B.length (B ++ D) ∧ stall B.length (B ++ D) ≤ (B ++ D).length := by
+  unfold stall
+  have := headNeed_le (B ++ D)
+  simp only [List.length_append] at this ⊢
+  split <;> omega
+
+theorem take_append_ge (B D : Bytes) (s : Nat) (h : B.length ≤ s) :
+    (B ++ D).take s = B ++ D.take (s - B.length) := by
+  rw [List.take_append, List.take_of_length_le h]
+
+theorem drop_append_ge (B D : Bytes) (s : Nat) (h : B.length ≤ s) :
+    (B ++ D).drop s = D.drop (s - B.length) := by
+  rw [List.drop_append, List.drop_of_length_le h]; rfl
+
+/-! ## 10. Item 3: the invariant and the specification of `parse_stream` -/
+
+/-- After the parser has consumed the Params payload bytes `C` (concatenated over all records so
+far), the environment is the fold of the complete pairs of `C` over the initial environment, and
+the side buffer is exactly the undecoded tail of `C`. -/
+def ParamsInv (env0 : List (Bytes × Bytes)) (C : Bytes) (i : Inner) : Prop :=
+  i.req.env = envExtend env0 (NV.all C).1 ∧ i.buffer = (NV.all C).2
+
+/-- `id`, `role`, `flags` of the request under construction. -/
+def SameReqHead (i i' : Inner) : Prop :=
+  i'.req.id = i.req.id ∧ i'.req.role = i.req.role ∧ i'.req.flags = i.req.flags
+
+theorem ParamsInv.next_buffer {env0 : List (Bytes × Bytes)} {C : Bytes} {i : Inner}
+    (h : ParamsInv env0 C i) : NV.next i.buffer = none := by
+  rw [h.2]; exact C16.stops_for_good C
+
+theorem paramsInv_init (env0 : List (Bytes × Bytes)) (i : Inner) (he : i.req.env = env0)
+    (hb : i.buffer = []) : ParamsInv env0 [] i := by
+  simp [ParamsInv, all_nil, envExtend_nil, he, hb]
+
+/-- Extending the consumed bytes: the invariant for `C ++ m` in terms of `buffer ++ m`. -/
+theorem paramsInv_extend {env0 : List (Bytes × Bytes)} {C : Bytes} {i i' : Inner} (m : Bytes)
+    (h : ParamsInv env0 C i)
+    (he : i'.req.env = envExtend i.req.env (NV.all (i.buffer ++ m)).1)
+    (hb : i'.buffer = (NV.all (i.buffer ++ m)).2) : ParamsInv env0 (C ++ m) i' := by
+  unfold ParamsInv
+  rw [C16.all_append C m, ← h.2]
+  exact ⟨by rw [he, h.1, envExtend_append], hb⟩
+
+/-- **`parse_stream` specification.**  From a state satisfying the invariant for `C`, a successful
+call consumed `k ≤ data.len()` bytes and re-establishes the invariant for `C ++ data[..k]`; at a
+record end everything is consumed; without a record end consumption is maximal: what stays
+unconsumed, together with the side buffer, is not a complete pair. -/
+theorem parseStream_spec (env0 : List (Bytes × Bytes)) (C : Bytes) (i i' : Inner) (data : Bytes)
+    (e : Bool) (k : Nat) (hinv : ParamsInv env0 C i) (h : parseStream i data e = .ok i' k) :
+    k ≤ data.length ∧ ParamsInv env0 (C ++ data.take k) i' ∧ SameReqHead i i' ∧
+      (e = true → k = data.length) ∧
+      (e = false → NV.next (i'.buffer ++ data.drop k) = none) := by
+  have hnone := hinv.next_buffer
+  rw [parseStream_eq i data e hnone] at h
+  unfold psSpec at h
+  cases e with
+  | true =>
+    simp only [if_true] at h
+    cases h
+    refine ⟨Nat.le_refl _, ?_, ⟨rfl, rfl, rfl⟩, fun _ => rfl, fun hc => by cases hc⟩
+    rw [List.take_length]
+    exact paramsInv_extend data hinv rfl rfl
+  | false =>
+    simp only [Bool.false_eq_true, if_false] at h
+    by_cases hx : NV.next (i.buffer ++ data) = none
+    · rw [if_pos hx] at h
+      cases h
+      obtain ⟨s1, s2⟩ := stall_bounds i.buffer data
+      generalize stall i.buffer.length (i.buffer ++ data) = s at *
+      simp only [List.length_append] at s2
+      have e1 := take_append_ge i.buffer data s s1
+      have e2 := drop_append_ge i.buffer data s s1
+      have hx' : NV.next (i.buffer ++ data.take (s - i.buffer.length)) = none := by
+        rw [← e1]
+        apply next_none_of_append (b := (i.buffer ++ data).drop s)
+        rw [List.take_append_drop]; exact hx
+      refine ⟨by omega, ?_, ⟨rfl, rfl, rfl⟩, fun hc => (by cases hc), fun _ => ?_⟩
+      · apply paramsInv_extend _ hinv
+        · rw [C16.all_none hx']; rfl
+        · rw [C16.all_none hx']; exact e1
+      · simp only []
+        rw [← e2, List.take_append_drop]; exact hx
+    · rw [if_neg hx] at h
+      cases h
+      have hw := all_rest_within hnone hx
+      have hw2 := all_rest_length_le (i.buffer ++ data)
+      have hc := all_take_consumed (i.buffer ++ data)
+      have e0 : (i.buffer ++ data).length - (NV.all (i.buffer ++ data)).2.length
+          = i.buffer.length + (data.length - (NV.all (i.buffer ++ data)).2.length) := by
+        simp only [List.length_append]; omega
+      have e1 := take_append_ge i.buffer data
+        (i.buffer.length + (data.length - (NV.all (i.buffer ++ data)).2.length)) (by omega)
+      rw [e0, e1, Nat.add_sub_cancel_left] at hc
+      refine ⟨by omega, ?_, ⟨rfl, rfl, rfl⟩, fun hc => (by cases hc), fun _ => ?_⟩
+      · apply paramsInv_extend _ hinv
+        · rw [hc]
+        · rw [hc]
+      · simp only [List.nil_append]
+        have e2 := drop_append_ge i.buffer data
+          (i.buffer.length + (data.length - (NV.all (i.buffer ++ data)).2.length)) (by omega)
+        rw [Nat.add_sub_cancel_left] at e2
+        rw [← e2, ← e0, ← all_rest_eq_drop]
+        exact C16.stops_for_good _
+
+/-- **`parse_stream` never panics** from a state satisfying the invariant. -/
+theorem parseStream_no_panic (env0 : List (Bytes × Bytes)) (C : Bytes) (i : Inner) (data : Bytes)
+    (e : Bool) (hinv : ParamsInv env0 C i) : ∀ s, parseStream i data e ≠ .panic s := by
+  intro s
+  rw [parseStream_eq i data e hinv.next_buffer]
+  unfold psSpec
+  split
+  · intro h; cases h
+  · split <;> (intro h; cases h)
+
+/-- Hence every call from a good state succeeds. -/
+theorem parseStream_ok (env0 : List (Bytes × Bytes)) (C : Bytes) (i : Inner) (data : Bytes)
+    (e : Bool) (hinv : ParamsInv env0 C i) : ∃ i' k, parseStream i data e = .ok i' k := by
+  cases h : parseStream i data e with
+  | ok i' k => exact ⟨i', k, rfl⟩
+  | panic s => exact absurd h (parseStream_no_panic env0 C i data e hinv s)
+
+/-! ## 11. Item 4: resumption (chunk invariance) -/
+
+theorem suffix_drop {B a c t : Bytes} (h : B ++ a = c ++ t) (hl : t.length ≤ a.length) :
+    a.drop (a.length - t.length) = t := by
+  have hlen := congrArg List.length h
+  simp only [List.length_append] at hlen
+  have e2 := drop_append_ge B a (B.length + (a.length - t.length)) (by omega)
+  rw [Nat.add_sub_cancel_left] at e2
+  rw [← e2, h, List.drop_left' (by omega)]
+
+theorem stall_resume (B a b : Bytes) :
+    stall (stall B.length (B ++ a)) (B ++ a ++ b) = stall B.length (B ++ a ++ b) := by
+  have hm := headNeed_mono (B ++ a) b
+  unfold stall
+  by_cases hB : B.length = 0
+  · simp [hB]
+  · have : max B.length (headNeed (B ++ a)) ≠ 0 := by omega
+    simp only [hB, this, if_false]
+    omega
+
+/-- **Resumption.**  Feeding `a` (not at a record end) and then what was left of `a` followed by `b`
+gives the same final state and the same total consumption as feeding `a ++ b` at once. -/
+theorem parseStream_resume' (i i1 i2 : Inner) (a b : Bytes) (e : Bool) (k1 k2 : Nat)
+    (hnone : NV.next i.buffer = none)
+    (h1 : parseStream i a false = .ok i1 k1)
+    (h2 : parseStream i1 (a.drop k1 ++ b) e = .ok i2 k2) :
+    parseStream i (a ++ b) e = .ok i2 (k1 + k2) := by
+  rw [parseStream_eq i a false hnone] at h1
+  rw [parseStream_eq i (a ++ b) e hnone]
+  unfold psSpec at h1
+  simp only [Bool.false_eq_true, if_false] at h1
+  by_cases hx : NV.next (i.buffer ++ a) = none
+  · -- the first call could not complete a pair
+    rw [if_pos hx] at h1
+    cases h1
+    obtain ⟨s1, s2⟩ := stall_bounds i.buffer a
+    have hsr := stall_resume i.buffer a b
+    generalize hs : stall i.buffer.length (i.buffer ++ a) = s at *
+    simp only [List.length_append] at s2
+    have e1 := take_append_ge i.buffer a s s1
+    have hx' : NV.next ((i.buffer ++ a).take s) = none := by
+      apply next_none_of_append (b := (i.buffer ++ a).drop s)
+      rw [List.take_append_drop]; exact hx
+    have hW : (i.buffer ++ a).take s ++ (a.drop (s - i.buffer.length) ++ b) = i.buffer ++ (a ++ b) := by
+      rw [e1]; simp only [List.append_assoc]
+      rw [← List.append_assoc (a.take _), List.take_append_drop]
+    have hlen : ((i.buffer ++ a).take s).length = s := by
+      simp only [List.length_take, List.length_append]; omega
+    rw [parseStream_eq _ _ e hx'] at h2
+    unfold psSpec at h2 ⊢
+    simp only [hW, hlen] at h2
+    have hl2 : (a.drop (s - i.buffer.length) ++ b).length + (s - i.buffer.length) = (a ++ b).length := by
+      simp only [List.length_append, List.length_drop]; omega
+    cases e with
+    | true =>
+      simp only [if_true] at h2 ⊢
+      cases h2
+      congr 1; omega
+    | false =>
+      simp only [Bool.false_eq_true, if_false] at h2 ⊢
+      by_cases hy : NV.next (i.buffer ++ (a ++ b)) = none
+      · rw [if_pos hy] at h2 ⊢
+        cases h2
+        rw [← List.append_assoc] at *
+        rw [hsr]
+        obtain ⟨t1, _⟩ := stall_bounds i.buffer (a ++ b)
+        rw [← List.append_assoc] at t1
+        have : s ≤ stall i.buffer.length (i.buffer ++ a ++ b) := by
+          rw [← hsr]; unfold stall; split <;> omega
+        congr 1; omega
+      · rw [if_neg hy] at h2 ⊢
+        cases h2
+        have hw : (NV.all (i.buffer ++ (a ++ b))).2.length ≤ (a.drop (s - i.buffer.length) ++ b).length := by
+          have := all_rest_within (D := a.drop (s - i.buffer.length) ++ b) hx' (by rw [hW]; exact hy)
+          rwa [hW] at this
+        congr 1; omega
+  · -- the first call decoded at least one pair and left `rest1` unconsumed
+    rw [if_neg hx] at h1
+    cases h1
+    have hw := all_rest_within hnone hx
+    have hdrop : a.drop (a.length - (NV.all (i.buffer ++ a)).2.length) = (NV.all (i.buffer ++ a)).2 := by
+      obtain ⟨c, hc⟩ := C16.rest_suffix (i.buffer ++ a)
+      exact suffix_drop hc hw
+    have hy : NV.next (i.buffer ++ (a ++ b)) ≠ none := by
+      intro hc; rw [← List.append_assoc] at hc; exact hx (next_none_of_append hc)
+    have hall := C16.all_append (i.buffer ++ a) b
+    rw [List.append_assoc] at hall
+    rw [hdrop] at h2
+    rw [parseStream_eq _ _ e (by show NV.next [] = none; decide)] at h2
+    unfold psSpec at h2 ⊢
+    simp only [List.nil_append, List.length_nil, Nat.sub_zero] at h2
+    generalize hr1 : (NV.all (i.buffer ++ a)).2 = rest1 at *
+    generalize hp1 : (NV.all (i.buffer ++ a)).1 = pairs1 at *
+    have hl2 : (rest1 ++ b).length + (a.length - rest1.length) = (a ++ b).length := by
+      simp only [List.length_append]; omega
+    cases e with
+    | true =>
+      simp only [if_true] at h2 ⊢
+      cases h2
+      rw [hall, envExtend_append]
+      congr 1; omega
+    | false =>
+      simp only [Bool.false_eq_true, if_false] at h2 ⊢
+      rw [if_neg hy, hall]
+      by_cases hz : NV.next (rest1 ++ b) = none
+      · rw [if_pos hz] at h2
+        cases h2
+        simp only [C16.all_none hz, stall, if_true, List.take_zero, List.append_nil]
+        congr 1
+        simp only [List.length_append]; omega
+      · rw [if_neg hz] at h2
+        cases h2
+        have := all_rest_length_le (rest1 ++ b)
+        rw [envExtend_append]
+        simp only []
+        congr 1; omega
+
+theorem parseStream_resume (env0 : List (Bytes × Bytes)) (C : Bytes) (i i1 i2 : Inner)
+    (a b : Bytes) (e : Bool) (k1 k2 : Nat) (hinv : ParamsInv env0 C i)
+    (h1 : parseStream i a false = .ok i1 k1)
+    (h2 : parseStream i1 (a.drop k1 ++ b) e = .ok i2 k2) :
+    parseStream i (a ++ b) e = .ok i2 (k1 + k2) :=
+  parseStream_resume' i i1 i2 a b e k1 k2 hinv.next_buffer h1 h2
+
+/-! ## 12. Item 5: a whole Params stream, record by record -/
+
+/-- Feed the payloads of consecutive Params records (each call sees a whole payload, so
+`rec_end = true`); `none` iff some call panicked. -/
+def feedRecords (i : Inner) : List Bytes → Option Inner
+  | [] => some i
+  | c :: cs =>
+    match parseStream i c true with
+    | .ok i' _ => feedRecords i' cs
+    | .panic _ => none
+
+theorem SameReqHead.refl (i : Inner) : SameReqHead i i := ⟨rfl, rfl, rfl⟩
+
+theorem SameReqHead.trans {i j k : Inner} (h1 : SameReqHead i j) (h2 : SameReqHead j k) :
+    SameReqHead i k :=
+  ⟨h2.1.trans h1.1, h2.2.1.trans h1.2.1, h2.2.2.trans h1.2.2⟩
+
+theorem params_payload_inv (env0 : List (Bytes × Bytes)) (cs : List Bytes) :
+    ∀ (C : Bytes) (i : Inner), ParamsInv env0 C i →
+      ∃ i', feedRecords i cs = some i' ∧ ParamsInv env0 (C ++ cs.flatten) i' ∧ SameReqHead i i' := by
+  induction cs with
+  | nil => intro C i h; exact ⟨i, rfl, by simpa using h, SameReqHead.refl i⟩
+  | cons c cs ih =>
+    intro C i h
+    obtain ⟨i1, k, hk⟩ := parseStream_ok env0 C i c true h
+    obtain ⟨_, hinv1, hs1, hfull, _⟩ := parseStream_spec env0 C i i1 c true k h hk
+    rw [hfull rfl, List.take_length] at hinv1
+    obtain ⟨i', hf, hinv', hs'⟩ := ih (C ++ c) i1 hinv1
+    refine ⟨i', ?_, ?_, hs1.trans hs'⟩
+    · simp only [feedRecords, hk]; exact hf
+    · simpa [List.append_assoc] using hinv'
+
+/-- **Whole-stream specification.**  Starting from a fresh inner state (environment `env0`, empty
+side buffer), feeding the record payloads `cs` never panics and ends in the state described by
+the invariant for the concatenated payload — however the stream was cut into records. -/
+theorem params_payload_spec (env0 : List (Bytes × Bytes)) (i0 : Inner) (cs : List Bytes)
+    (he : i0.req.env = env0) (hb : i0.buffer = []) :
+    ∃ i', feedRecords i0 cs = some i' ∧ ParamsInv env0 cs.flatten i' ∧ SameReqHead i0 i' := by
+  simpa using params_payload_inv env0 cs [] i0 (paramsInv_init env0 i0 he hb)
+
+/-- In particular a stream that is the encoding of the pairs `ps` yields exactly `ps` folded into
+the environment and an empty side buffer. -/
+theorem params_payload_roundtrip (env0 : List (Bytes × Bytes)) (i0 : Inner) (cs : List Bytes)
+    (ps : List (Bytes × Bytes)) (he : i0.req.env = env0) (hb : i0.buffer = [])
+    (hps : ∀ p ∈ ps, p.1.length ≤ maxVal ∧ p.2.length ≤ maxVal)
+    (hcs : cs.flatten = ps.flatMap NV.enc) :
+    ∃ i', feedRecords i0 cs = some i' ∧ i'.req.env = envExtend env0 ps ∧ i'.buffer = [] ∧
+      SameReqHead i0 i' := by
+  obtain ⟨i', hf, hinv, hs⟩ := params_payload_spec env0 i0 cs he hb
+  rw [hcs] at hinv
+  obtain ⟨h1, h2⟩ := hinv
+  rw [C16.roundtrip_nil ps hps] at h1 h2
+  exact ⟨i', hf, h1, h2, hs⟩
+
+/-- Chunk invariance of the whole stream: the final state depends only on the concatenation. -/
+theorem params_payload_chunk_invariant (i0 : Inner) (cs cs' : List Bytes) (hb : i0.buffer = [])
+    (h : cs.flatten = cs'.flatten) : feedRecords i0 cs = feedRecords i0 cs' := by
+  obtain ⟨i1, hf1, ⟨e1, b1⟩, s1⟩ := params_payload_spec i0.req.env i0 cs rfl hb
+  obtain ⟨i2, hf2, ⟨e2, b2⟩, s2⟩ := params_payload_spec i0.req.env i0 cs' rfl hb
+  rw [hf1, hf2]
+  rw [h] at e1 b1
+  obtain ⟨⟨id1, r1, f1, env1⟩, buf1⟩ := i1
+  obtain ⟨⟨id2, r2, f2, env2⟩, buf2⟩ := i2
+  obtain ⟨a1, a2, a3⟩ := s1
+  obtain ⟨c1, c2, c3⟩ := s2
+  simp only at e1 b1 e2 b2 a1 a2 a3 c1 c2 c3
+  subst e1 b1 e2 b2 a1 a2 a3 c1 c2 c3
+  rfl
+
+/-! ## 13. Non-vacuity: concrete streams exercising the four-byte length arms -/
+namespace Examples
+
+def name130 : Bytes := List.replicate 130 0x61
+/-- One pair with a 130-byte name (four-byte length prefix) and a 3-byte value whose length is
+given in the (non-canonical, but accepted) four-byte form; then the pair `("x", "y")`. 145 bytes. -/
+def wire : Bytes := [0x80, 0, 0, 130, 0x80, 0, 0, 3] ++ name130 ++ [1, 2, 3] ++ [1, 1, 0x78, 0x79]
+def i0 : Inner := { req := { id := 1, role := 1, flags := 0, env := [] }, buffer := [] }
+
+/-- Observable part of a `parseBuffered` result that does not involve the environment. -/
+def pbView : PB → Option (Bytes × Bytes)
+  | .ok i d => some (i.buffer, d)
+  | .panic _ => none
+
+set_option maxRecDepth 20000 in
+theorem next_wire : NV.next wire = some ((name130, [1, 2, 3]), [1, 1, 0x78, 0x79]) := by decide
+
+theorem next_tail : NV.next [1, 1, 0x78, 0x79] = some (([0x78], [0x79]), []) := by decide
+
+theorem all_wire : NV.all wire = ([(name130, [1, 2, 3]), ([0x78], [0x79])], []) := by
+  rw [C16.all_some next_wire, C16.all_some next_tail, all_nil]
+
+set_option maxRecDepth 20000 in
+/-- Cuts inside the first length prefix (2), inside the second (6), inside the name (50) and
+inside the value (139): the first part alone is not a complete pair. -/
+theorem cuts_incomplete : ∀ c ∈ [2, 6, 50, 139], NV.next (wire.take c) = none := by decide
+
+/-- `parseBuffered_spec`/`parseBuffered_eq` are applicable at each of the four cuts (non-empty,
+incomplete buffer) and the completed-pair branch is taken: the pair is inserted, the buffer
+cleared, and exactly the bytes of the following pair are handed back. -/
+example : ∀ c ∈ [2, 6, 50, 139], ∀ e,
+    parseBuffered { i0 with buffer := wire.take c } (wire.drop c) e =
+      .ok { req := { i0.req with env := envInsert [] (makeCgivar name130) [1, 2, 3] }, buffer := [] }
+        [1, 1, 0x78, 0x79] := by
+  intro c hc e
+  have hne : wire.take c ≠ [] := by
+    intro h; have := cuts_incomplete c hc; rw [h] at this
+    simp only [List.mem_cons, List.not_mem_nil, or_false] at hc
+    rcases hc with rfl | rfl | rfl | rfl <;> exact absurd h (by decide)
+  rw [parseBuffered_eq _ _ _ hne (cuts_incomplete c hc)]
+  simp only [pbSpec, List.take_append_drop, next_wire]
+  rfl
+
+set_option maxRecDepth 20000 in
+/-- The same, by direct evaluation of the model (cut inside the second four-byte prefix / inside
+the name / inside the value), without any theorem. -/
+example : pbView (parseBuffered { i0 with buffer := wire.take 6 } (wire.drop 6) false)
+    = some ([], [1, 1, 0x78, 0x79]) := by decide
+set_option maxRecDepth 20000 in
+example : pbView (parseBuffered { i0 with buffer := wire.take 50 } (wire.drop 50) true)
+    = some ([], [1, 1, 0x78, 0x79]) := by decide
+set_option maxRecDepth 20000 in
+example : pbView (parseBuffered { i0 with buffer := wire.take 139 } (wire.drop 139) false)
+    = some ([], [1, 1, 0x78, 0x79]) := by decide
+
+/-- Still-incomplete branch, no record end: only the knowable part of the header moves.  One byte
+`0x80` buffered; five more bytes arrive: the first prefix is completed (4 bytes moved), the second
+prefix is long and incomplete, so its single available byte is *not* consumed. -/
+example : pbView (parseBuffered { i0 with buffer := [0x80] } [0, 0, 130, 0x80, 0] false)
+    = some ([0x80, 0, 0, 130, 0x80], [0]) := by decide
+/-- … nothing moves while even the first prefix is incomplete … -/
+example : pbView (parseBuffered { i0 with buffer := [0x80] } [0, 0] false)
+    = some ([0x80], [0, 0]) := by decide
+/-- … and at a record end everything is buffered. -/
+example : pbView (parseBuffered { i0 with buffer := [0x80] } [0, 0] true)
+    = some ([0x80, 0, 0], []) := by decide
+
+/-- A state satisfying the invariant with a non-empty side buffer. -/
+def iA : Inner := { i0 with buffer := [0x80] }
+theorem invA : ParamsInv [] [0x80] iA := by
+  have : NV.all [0x80] = ([], [0x80]) := C16.all_none (by decide)
+  simp [ParamsInv, this, iA, i0, envExtend_nil]
+
+/-- `parse_stream` from `iA`, no record end: consumes 4 of 5 bytes. -/
+theorem stepA : parseStream iA [0, 0, 130, 0x80, 0] false =
+    .ok { iA with buffer := [0x80, 0, 0, 130, 0x80] } 4 := by
+  rw [parseStream_eq _ _ _ invA.next_buffer]
+  have h : NV.next (iA.buffer ++ [0, 0, 130, 0x80, 0]) = none := by decide
+  have s : stall iA.buffer.length (iA.buffer ++ [0, 0, 130, 0x80, 0]) = 5 := by decide
+  simp only [psSpec, h, s, Bool.false_eq_true, if_false, if_true]
+  rfl
+
+/-- `parseStream_spec` instantiated: invariant for the 5 bytes consumed so far, and the one byte
+left behind does not complete the pair. -/
+example : ParamsInv [] ([0x80] ++ [0, 0, 130, 0x80]) { iA with buffer := [0x80, 0, 0, 130, 0x80] } ∧
+    NV.next ([0x80, 0, 0, 130, 0x80] ++ [0]) = none :=
+  have h := parseStream_spec [] [0x80] iA _ _ false 4 invA stepA
+  ⟨h.2.1, h.2.2.2.2 rfl⟩
+
+/-- `parseStream_resume` instantiated: whatever follows (`b`, any record-end flag), resuming after
+`stepA` equals the one-shot call. -/
+example (b : Bytes) (e : Bool) (i2 : Inner) (k2 : Nat)
+    (h2 : parseStream { iA with buffer := [0x80, 0, 0, 130, 0x80] } (0 :: b) e = .ok i2 k2) :
+    parseStream iA ([0, 0, 130, 0x80, 0] ++ b) e = .ok i2 (4 + k2) :=
+  parseStream_resume [] [0x80] iA _ i2 _ b e 4 k2 invA stepA h2
+
+/-- Whole stream, cut into two records at each of the four places (and uncut): same result, the
+two pairs in order and an empty side buffer. -/
+example : ∀ c ∈ [2, 6, 50, 139], ∃ i', feedRecords i0 [wire.take c, wire.drop c] = some i' ∧
+    i'.req.env = envExtend [] [(name130, [1, 2, 3]), ([0x78], [0x79])] ∧ i'.buffer = [] ∧
+    feedRecords i0 [wire] = some i' := by
+  intro c _
+  obtain ⟨i', hf, hinv, _⟩ := params_payload_spec [] i0 [wire.take c, wire.drop c] rfl rfl
+  have hfl : [wire.take c, wire.drop c].flatten = wire := by simp
+  rw [hfl, ParamsInv, all_wire] at hinv
+  refine ⟨i', hf, hinv.1, hinv.2, ?_⟩
+  rw [← hf]
+  exact params_payload_chunk_invariant i0 _ _ rfl (by simp)
+
+theorem take_drop_chain (w : Bytes) (a b : Nat) : (w.drop a).take b ++ w.drop (a + b) = w.drop a := by
+  rw [← List.drop_drop, List.take_append_drop]
+
+theorem chunks5 (w : Bytes) :
+    [w.take 2, (w.drop 2).take 4, (w.drop 6).take 44, (w.drop 50).take 150, w.drop 200].flatten = w := by
+  have h1 := take_drop_chain w 50 150
+  have h2 := take_drop_chain w 6 44
+  have h3 := take_drop_chain w 2 4
+  simp only [Nat.reduceAdd] at h1 h2 h3
+  simp only [List.flatten_cons, List.flatten_nil, List.append_nil]
+  rw [h1, h2, h3, List.take_append_drop]
+
+def val200 : Bytes := List.replicate 200 7
+
+/-- `params_payload_roundtrip` instantiated with a canonical encoding: 130-byte name and 200-byte
+value (both length prefixes four bytes), cut inside the first prefix (2), inside the second prefix
+(6), inside the name (50) and inside the value (200) — five records. -/
+example : ∃ i', feedRecords i0
+      (let w := NV.enc (name130, val200) ++ NV.enc ([0x78], [0x79])
+       [w.take 2, (w.drop 2).take 4, (w.drop 6).take 44, (w.drop 50).take 150, w.drop 200]) = some i' ∧
+    i'.req.env = envExtend [] [(name130, val200), ([0x78], [0x79])] ∧ i'.buffer = [] := by
+  obtain ⟨i', hf, he, hb, _⟩ := params_payload_roundtrip [] i0 _
+    [(name130, val200), ([0x78], [0x79])] rfl rfl
+    (by
+      intro p hp
+      simp only [List.mem_cons, List.not_mem_nil, or_false] at hp
+      rcases hp with rfl | rfl <;>
+        simp only [name130, val200, List.length_replicate, maxVal, List.length_cons,
+          List.length_nil] <;> omega)
+    (by rw [chunks5])
+  exact ⟨i', hf, he, hb⟩
+
+end Examples
+
+end Fcgi.Req
